@@ -359,16 +359,25 @@ impl CurrentRegion {
                 let _ = file.seek(SeekFrom::Start(offset)).ok()?;
 
                 let max_length: usize = self.file_size.checked_sub(offset.try_into().ok()?)?;
+                // Index of the page holding the end of the file, if the file ends inside a page.
+                let mut partial_page_index = None;
                 if max_length < length {
                     // It is possible for the file to be smaller than the region, as the region
                     // should be multiples of the page size. In that case, the rest of the bytes
-                    // are null.
+                    // are null in the file. The process can however have written in the rest
+                    // of the page holding the end of the file: for a shared mapping, this page
+                    // is still seen as file-backed, but what was written past the end of the
+                    // file is in the page only, not in the file. This page is thus always
+                    // fetched from the process memory if it is present.
                     // Since there might still be data left from a previous read past the
                     // max_file_length byte, it needs to be reset to 0.
                     // This is done by resizing back and forth.
                     buffer.resize(max_length, 0);
                     file.read_exact(buffer).ok()?;
                     buffer.resize(length, 0);
+                    if max_length % page_size != 0 {
+                        partial_page_index = Some(max_length / page_size);
+                    }
                 } else {
                     file.read_exact(buffer).ok()?;
                 }
@@ -405,7 +414,7 @@ impl CurrentRegion {
                     // Otherwise, the page has been fetched, and the 62th bit is set to 1 only if
                     // the page is file-backed. If not, it has been modified, and we need to fetch
                     // it from the process memory.
-                    if page_bits & 0x2 != 0 {
+                    if page_bits & 0x2 != 0 && partial_page_index != Some(page_index) {
                         continue;
                     }
 
